@@ -49,6 +49,7 @@ class FnContract:
     ghost: dict = field(default_factory=dict)  # statement text -> [ghost assignment statements] run after it
     runtime: object = None  # Runtime: generator of real inputs for cross-check / replay
     alias_ok: tuple = ()
+    comp_member_facts: bool = True  # set/dict comprehensions over a LIST assume "every position holds a member" / "every member has a position" for the source list; switch off where these two quantified facts slow unrelated obligations down
     extract_free: bool | None = None  # list slices / pop / insert / del without seq.extract (a fresh sequence + its two defining facts); None = the global default (PYVC_EXTRACT_FREE, off)
     comp_lastpos_free: bool = False  # computed-key dict comprehensions: also state the last-position axiom WITHOUT an explicit trigger (helps some goals, is a matching loop for others)
     comp_positions: bool = False  # filtered list comprehensions get order-preserving Skolem position functions (source position of each result position, strictly increasing, onto the passing positions)
